@@ -25,6 +25,16 @@ class Run:
                  'pure_adds', 'labels_of')
 
 
+CHILD_VALUE_NONE = [False]     # children of classes without character content are created with an explicit value_=None
+
+
+def new_child(name):
+    ccls = lib.child_cls(name)
+    if CHILD_VALUE_NONE[0] and lib.default_value(ccls) is None and not lib.has_required_attrs(ccls):
+        return ccls(value_=None, xsd_check=False)
+    return lib.make(ccls)
+
+
 def snapshot(e):
     return (tuple(lib.ids(e, True)), tuple(lib.ids(e, False)), dict(e.attributes), e.value_)
 
@@ -64,7 +74,7 @@ def replay(cls, t, hist, props=(), labels=None):
         skip = False
         lib.STEPS.begin(STEP_BUDGET)
         if kind == 'add':
-            newkid = lib.make(lib.child_cls(op[1]))
+            newkid = new_child(op[1])
             res = lib.call(e.add_child, newkid, op[2]) if op[2] is not None else lib.call(e.add_child, newkid)
         elif kind == 'rm':
             if not live:
@@ -91,7 +101,7 @@ def replay(cls, t, hist, props=(), labels=None):
                 skip = True
             else:
                 target = live[op[1] % len(live)]
-                newkid = lib.make(lib.child_cls(op[2]))
+                newkid = new_child(op[2])
                 if kind == 'rep':
                     res = lib.call(e.replace_child, target, newkid)
                 else:
